@@ -5,6 +5,7 @@ from sa.dataflow import Poly, cmp_key
 from sa.resolve import walk_function
 from sa.model import enclosing_function
 
+TECHNIQUE = 'static analysis (ast): effect analysis for process-wide stores (class / module objects, class-level containers, import-time instances, shared default arguments with a decided statelessness premise), reset-completeness (every attribute written at episode time is re-assigned on every path of reset), reviewed table of nondeterminism sources'
 EXPLANATION = (
     "Decides the state-hygiene clauses of C10: (S1) GLOBAL: no function body stores into a class object or module attribute and no class-level mutable "
     "container is mutated through instances (process-wide state shared by all environments); (S2) every source of nondeterminism (wall clock, random "
